@@ -512,3 +512,53 @@ package kcache
   loop 1 inv [running] (and (= lc 0) (= njoin 0))
   loop 1 inv [list-failures-are-fatal] (not failure)
 @*/
+
+/*@ neverclosed kcache._subscription.inch
+@*/
+
+/*@ func (*kcache._subscription).run
+  props C05 C10 C11 C12
+  theory lists
+  requires [valid-s] (and (not (= {s} vnil)) (not (= {s.inch} vnil)) (not (= {s.outch} vnil)) (not (= {s.lc} vnil)) (not (= {s.log} vnil))
+        (not (= {s.inch} {s.outch})))
+  requires [fresh-channels] (and (not {closed(s.outch)}) (= (slen {sent(s.outch)}) 0) (= (slen {rcvd(s.inch)}) 0))
+  ghost nrcv : Int := 0
+  ghost nsent : Int := 0
+  ghost ndrop : Int := 0
+  ghost emb : (Array Int Int) := ((as const (Array Int Int)) 0)
+  ghost lc : Int := 0
+  at recv(s.inch) set nrcv := (+ nrcv 1)
+  at send(s.outch) assert [forwards-the-event-just-received] (= $val (select (sarr {rcvd(s.inch)}) (- nrcv 1)))
+  at send(s.outch) set emb := (store emb nsent (- nrcv 1))
+  at send(s.outch) set nsent := (+ nsent 1)
+  at default set ndrop := (+ ndrop 1)
+  at call(ShutdownInitiated) assert [shutdown-initiated-once] (= lc 0)
+  at call(ShutdownInitiated) set lc := 1
+  at close(s.outch) assert [output-closed-after-the-last-send-and-once] (= lc 1)
+  loop 1 inv [counts] (and (= (slen {sent(s.outch)}) nsent) (= (slen {rcvd(s.inch)}) nrcv) (>= nsent 0) (>= ndrop 0) (= nrcv (+ nsent ndrop)))
+  loop 1 inv [delivered-is-an-in-order-subsequence-of-received] (forall ((j Int)) (=> (and (<= 0 j) (< j nsent))
+        (and (<= 0 (select emb j)) (< (select emb j) nrcv)
+             (= (select (sarr {sent(s.outch)}) j) (select (sarr {rcvd(s.inch)}) (select emb j)))
+             (=> (> j 0) (< (select emb (- j 1)) (select emb j))))))
+  loop 1 inv [last-embedding-is-below-received] (=> (> nsent 0) (< (select emb (- nsent 1)) nrcv))
+  loop 1 inv [nothing-dropped-means-identical] (=> (= ndrop 0) (forall ((j Int)) (=> (and (<= 0 j) (< j nsent)) (= (select emb j) j))))
+  loop 1 inv [running] (and (= lc 0) (not {closed(s.outch)}))
+@*/
+
+/*@ func (*kcache._subscription).send
+  props C05 C10 C12
+  requires (and (not (= {s} vnil)) (not (= {s.inch} vnil)) (not (= {s.lc} vnil)) (not {closed(s.inch)}))
+@*/
+
+/*@ func (*kcache.publisher).distributeEvent
+  props C05 C10
+  theory lists
+  requires (and (not (= {s} vnil)) (not (= {s.subscriptions} vnil)) (not (= {s.log} vnil)))
+  requires [subscriptions-nonnil] (not (select {dom(s.subscriptions)} vnil))
+  ghost cnt : (Array V Int) := ((as const (Array V Int)) 0)
+  at call(send) assert [sends-the-published-event] (= $0 {evt})
+  at call(send) set cnt := (store cnt $recv (+ 1 (select cnt $recv)))
+  loop 1 inv [visited-are-subscriptions] (forall ((x V)) (=> (select $visited x) (select {dom(s.subscriptions)} x)))
+  loop 1 inv [each-visited-subscription-got-it-once] (forall ((x V)) (= (select cnt x) (ite (select $visited x) 1 0)))
+  exit [every-subscription-gets-the-event-exactly-once] (forall ((x V)) (= (select cnt x) (ite (select {dom(s.subscriptions)} x) 1 0)))
+@*/
